@@ -335,7 +335,8 @@ class World:
         def earlier_timeout(rec_):
             """an earlier request with the same key timed out: its reply may still arrive and is then, without message ids,
             necessarily taken for the reply of the next request with that key (and that one's reply for the one after it)"""
-            return any(v is not rec_ and v['kind'] == rec_['kind'] and v['t_call'] <= rec_['t_call'] and v.get('error', ('',))[0] == 'TimeoutError'
+            # (not necessarily one that was called earlier: a fresh request may overtake a held back one)
+            return any(v is not rec_ and v['kind'] == rec_['kind'] and v['t_call'] < rec_.get('t_ret', 1e99) and v.get('error', ('',))[0] == 'TimeoutError'
                        for v in results.values())
 
         for key, rec_ in sorted(results.items()):
@@ -353,8 +354,10 @@ class World:
                       'read-value': action == 'reply' and ident == 'm:value',
                       'ping': action == 'pong' and ident == f'tok{tok}',
                       'unknown': action == 'xyz_reply' and data == tok}[kind]
-                if not ok and action == 'changed' and ident == 'm:target' and data and \
-                        any(v.get('tok') == data[0] for v in results.values()) and earlier_timeout(rec_):
+                # the token the reply carries (the request it really answers)
+                rtok = data[0] if action == 'changed' and data else data if action == 'xyz_reply' else None
+                if not ok and rtok is not None and any(v is not rec_ and v['kind'] == kind and v.get('tok') == rtok for v in results.values()) and \
+                        earlier_timeout(rec_):
                     # the reply of a request that had already timed out arrived late: without message ids it is taken for
                     # the reply of the next request with the same key, whose own reply then shifts to the one after it
                     # (the value is a real reply to another request of this run) - counted, not judged
@@ -415,7 +418,8 @@ class World:
                     r.violation(f'C11/unexpected-exception/{cls}', f'caller {key}: {cls}: {text}', case)
                     return
             if dt > TIMEOUT + PERIOD + 0.5:
-                r.violation('C11/caller-waits-longer-than-timeout', f'caller {key} ({rec_["kind"]}) returned after {dt:.2f} virtual s', case)
+                who = 'with-user-disconnect' if scen['fault'] in ('user-drop', 'both-drop') else 'connection-lost-only' if first_drop is not None else 'no-drop'
+                r.violation(f'C11/caller-waits-longer-than-timeout/{who}', f'caller {key} ({rec_["kind"]}) returned after {dt:.2f} virtual s', case)
                 return
             if first_drop is not None and 'error' in rec_ and rec_['t_call'] <= first_drop and rec_['t_ret'] - first_drop > PERIOD + 0.5 \
                     and rec_['error'][0] != 'HardwareError':
